@@ -268,7 +268,7 @@ func (rn *runner) run(k int, r *rand.Rand, keys []key, word []sym, rawBodies boo
 		if derr == nil && out.IsTemplate { // delivered template: names and types of known fields
 			l := model[mirror.Key{Domain: kk.dom, TID: kk.tid}]
 			for j := range out.TFields {
-				if l != nil && j < len(l.Names) && (out.TNames[j] != l.Names[j] || out.TTypes[j] != l.Types[j] || out.TFields[j].Len != l.Widths[j]) {
+				if l != nil && !l.Gray && j < len(l.Names) && (out.TNames[j] != l.Names[j] || out.TTypes[j] != l.Types[j] || out.TFields[j].Len != l.Widths[j]) {
 					return fail(i, "template-element", fmt.Sprintf("field %d delivered as (%q,%v,len %d), registry says (%q,%v,len %d)", j, out.TNames[j], out.TTypes[j], out.TFields[j].Len, l.Names[j], l.Types[j], l.Widths[j]))
 				}
 			}
